@@ -25,7 +25,7 @@ RULE = (
     "through open_alos2). Plus real kills: a child process runs open_alos2(create_cache=True) "
     "with a byte-wise writer installed by the harness and SIGKILLs itself at a generated offset "
     "of a generated image (quick 8, thorough 200); plus a live second writer held mid-write on a "
-    "pipe while the reader opens; plus both locations torn at once (grid and generated pairs of prefix lengths); plus disk full: the write of one image's index stops after a "
+    "pipe while the reader opens; plus two runs of the cache tool at once (one per image, renames held back until both have written); plus both locations torn at once (grid and generated pairs of prefix lengths); plus disk full: the write of one image's index stops after a "
     "generated number of bytes with ENOSPC inside this process (the failing call may raise "
     "OSError; later opens are judged). Oracle after each fault: open_alos2(path) with default options "
     "returns a tree identical to the uncached reference; then create_cache=True succeeds, the "
@@ -307,9 +307,83 @@ def run_case(case):
             return out
         if case["kind"] == "enospc":
             return run_enospc(case, prod, images, ref, docs)
+        if case["kind"] == "concurrent-tools":
+            return run_concurrent_tools(case, prod, images, ref, docs)
         raise ValueError(case["kind"])
     finally:
         clean(prod, images)
+
+
+def run_concurrent_tools(case, prod, images, ref, docs):
+    """two runs of the cache tool at once, one per image of the product ("a second process still
+    writing"), interleaved at the most awkward point: both have written whatever they write
+    before either renames anything into place (os.replace / os.rename are held back until the
+    other run has got there too, or has finished).  Afterwards the product must open like the
+    uncached reference."""
+    import threading
+
+    from ceos_alos2.sar_image import cli
+
+    state = {"arrived": 0, "done": 0, "renamed": 0}
+    cond = threading.Condition()
+    real_replace, real_rename = os.replace, os.rename
+
+    def held(real):
+        def call(*a, **k):
+            with cond:
+                state["arrived"] += 1
+                ticket = state["arrived"]
+                cond.notify_all()
+                # wait until the other run has written too (or has finished) ...
+                cond.wait_for(lambda: state["arrived"] + state["done"] >= 2, timeout=10)
+                # ... then rename in the order of arrival: write(A), write(B), rename(A), rename(B)
+                cond.wait_for(lambda: state["renamed"] + state["done"] >= ticket - 1, timeout=10)
+            try:
+                return real(*a, **k)
+            finally:
+                with cond:
+                    state["renamed"] += 1
+                    cond.notify_all()
+
+        return call
+
+    held_replace, held_rename = held(real_replace), held(real_rename)
+
+    cache_root = None
+    if case["location"] == "user":
+        cache_root = c07.user_index_path(prod.url, images[0]).parent
+        cache_root.mkdir(parents=True, exist_ok=True)
+    errors = {}
+
+    def run(image):
+        try:
+            cli.create_cache(prod.dir / image, cache_root, case.get("rpc", 2))
+        except Exception as e:  # noqa: BLE001 - judged below
+            errors[image] = e
+        finally:
+            with cond:
+                state["done"] += 1
+                cond.notify_all()
+
+    os.replace, os.rename = held_replace, held_rename
+    try:
+        threads = [threading.Thread(target=run, args=(image,), daemon=True) for image in images]
+        for t in threads:
+            t.start()
+        for t in threads:
+            t.join(timeout=60)
+    finally:
+        os.replace, os.rename = real_replace, real_rename
+    out = []
+    for image, e in errors.items():
+        if not isinstance(e, OSError):
+            out.append(harness.disc("tool-failed", "two cache tool runs at once", "both finish (or fail with OSError)", harness.exc_text(e)))
+    tree, err = harness.guard(harness.open_tree, prod.url)
+    if err is not None:
+        out.append(harness.disc("poisoned-open", "after two cache tool runs at once", "tree identical to the uncached open", harness.exc_text(err)))
+    else:
+        out.extend(dict(d, where=f"after two cache tool runs at once: {d['where']}") for d in harness.diff_flat(ref, harness.flatten(tree), kind="torn-cache-differs")[:3])
+    return out
 
 
 def run_enospc(case, prod, images, ref, docs):
@@ -394,6 +468,8 @@ def enum_cases(tier):
                     if tier == "quick" and i == 1 and (ku + ka) % 2:
                         continue
                     yield {"kind": "prefix2", "level": level, "image": i, "k_user": ku, "k_adjacent": ka}
+        for location in ("adjacent", "user"):
+            yield {"kind": "concurrent-tools", "level": level, "location": location, "rpc": 2}
         for j in range(2 if tier == "quick" else 12):
             yield {"kind": "writer", "level": level, "image": j % 2, "location": ["user", "adjacent"][j % 2], "cut": 37 + 211 * j}
 
